@@ -40,7 +40,12 @@ ANYSYM = ((0, L.SYM_BASE + 0xFFF),)
 def run(ctx):
     _wrapper(ctx)
     _handlers(ctx)
-    _actions(ctx)
+    # C09 quantifies over every input text, year 0001/9999 stamps included: there astimezone() overflows
+    X.OVERLAY = {'methods': {'astimezone': ['OverflowError']}}
+    try:
+        _actions(ctx)
+    finally:
+        X.OVERLAY = {}
     _envelopes(ctx)
 
 
@@ -240,9 +245,13 @@ def _actions(ctx):
             unknown |= set(unk)
             if bad:
                 call, exc = bad[0]
-                ctx.violation('C09.D3', '%s::%s' % (FP, node.label()), norm(call),
-                              'a scalar that matches %s but makes `%s` fail raises %s out of parse_scalar: not a ValueError'
-                              % (node.label(), norm(call)[:60], exc),
+                wit = ('a scalar that matches %s but makes `%s` fail raises %s out of parse_scalar: not a ValueError'
+                       % (node.label(), norm(call)[:60], exc))
+                if exc == 'OverflowError':
+                    wit = ('parse_scalar("9999-12-31T23:59:59Z Sydney"): converting a stamp at the edge of the datetime '
+                           'range into the named zone overflows; `%s` is not protected, so OverflowError (not a '
+                           'ValueError) escapes' % norm(call)[:60])
+                ctx.violation('C09.D3', '%s::%s' % (FP, node.label()), norm(call), wit,
                               'the parse action of %s may raise %s (not a ValueError subclass, not caught locally)'
                               % (node.label(), exc), file=FP, line=getattr(call, 'lineno', node.lineno), engine='E8')
             else:
